@@ -21,7 +21,7 @@ type magicCodec struct {
 
 var sharedMagic = new(magicCodec)
 
-func (c *magicCodec) String() string                           { return "MAGIC" }
+func (c *magicCodec) String() string                            { return "MAGIC" }
 func (c *magicCodec) CompressionCodec() format.CompressionCodec { return -1 }
 
 func (c *magicCodec) Encode(dst, src []byte) ([]byte, error) {
